@@ -237,7 +237,11 @@ def run_variant(args):
                 if rc != 0:
                     bad.append(f"{p}: rc={rc}: {out[:400]}")
             if bad:
+                if v.get("unresolved"):
+                    return v["id"], "ok", "UNRESOLVED-FALSE-ALARM (recorded in DESIGN 11): " + " | ".join(b[:120] for b in bad)
                 return v["id"], "FALSE-ALARM", " | ".join(bad)
+            if v.get("unresolved"):
+                return v["id"], "RESOLVED", "recorded as an unresolved false alarm but every check is silent now: update seeded/*/meta.json"
             return v["id"], "ok", ""
     finally:
         shutil.rmtree(tmp, ignore_errors=True)
@@ -254,6 +258,11 @@ def seeded_variants():
         if not os.path.exists(mp):
             continue
         meta = json.load(open(mp))
+        if "refactoring" in meta.get("kind", ""):
+            # a behaviour-preserving refactoring: every check silent; the ones recorded as unresolved (DESIGN 11) are reported apart
+            out.append({"id": "refactoring-" + d, "patch": os.path.join(base, d, "patch.diff"), "expect": "silent",
+                        "unresolved": meta.get("unresolved_false_alarm", False)})
+            continue
         fires = meta["checks_that_fire_now"]
         out.append({"id": "seeded-" + d, "patch": os.path.join(base, d, "patch.diff"), "props": [meta["breaks_property"]],
                     "silent": [p for p in PROPS if p not in fires], "expect": "violation"})
@@ -275,6 +284,8 @@ def main():
     with cf.ProcessPoolExecutor(max_workers=a.j) as ex:
         for r in ex.map(run_variant, [(v, a.root) for v in variants]):
             res.append(r)
+            if r[1] == "ok" and r[2].startswith("UNRESOLVED"):
+                print(f"{'UNRESOLVED':15s} {r[0]}: {r[2][:300]}")
             if r[1] != "ok":
                 print(f"{r[1]:15s} {r[0]}: {r[2][:700]}")
     nb = sum(1 for v in variants if v["expect"] == "violation")
